@@ -38,12 +38,16 @@ CONSTANTS MaxRounds,        \* losses of an established connection per behaviour
           FailedDialClearsConn,        \* D28: TRUE = code as found (t.conn = nil after a failed dial)
           MaxRestarts,                 \* how often the application stops the manager and runs it again
           StopDisarms,                 \* TRUE = a (seeded) variant in which a stopped manager is never re-armed
+          GuardHeldDuringPost,         \* TRUE = a (seeded) variant: a "one reconnection at a time" guard that is still held while the
+                                       \* post-connect callback runs, so that a loss reported meanwhile is dropped
           Emit
 
 VARIABLES phase,     \* "init" | "up" | "lost" | "failed" | "stopped"
           loops,     \* number of reconnect loops running (goroutines inside StreamManager.resume)
           sessions,  \* sessions established so far
-          posts,     \* PostConnect calls so far
+          posts,     \* PostConnect calls completed so far
+          posting,   \* goroutines inside a PostConnect callback: the callback runs after the session is established (its receive
+                     \* loop is already running and can report a loss) and before Connect / the reconnect loop returns
           conns,     \* connections opened by the client so far
           live,      \* number of established sessions whose receive loop is alive
           round, attempts, pendingDisc,  \* Disconnected events not yet handled
@@ -57,15 +61,15 @@ VARIABLES phase,     \* "init" | "up" | "lost" | "failed" | "stopped"
           restarts,     \* Stop + Run again so far
           disarmed,     \* (variant) the manager ignores Disconnected events
           hist
-vars == <<phase, loops, sessions, posts, conns, live, round, attempts, pendingDisc, kinds, smid, runReturned, stale, closing, connNil, panic, restarts, disarmed, hist>>
+vars == <<phase, loops, sessions, posts, posting, conns, live, round, attempts, pendingDisc, kinds, smid, runReturned, stale, closing, connNil, panic, restarts, disarmed, hist>>
 kavars == <<stale, closing, connNil, panic, restarts, disarmed>>
 
-Init == /\ phase = "init" /\ loops = 0 /\ sessions = 0 /\ posts = 0 /\ conns = 0 /\ live = 0 /\ round = 1 /\ attempts = 0
+Init == /\ phase = "init" /\ loops = 0 /\ sessions = 0 /\ posts = 0 /\ posting = 0 /\ conns = 0 /\ live = 0 /\ round = 1 /\ attempts = 0
         /\ pendingDisc = 0 /\ kinds = <<>> /\ smid = FALSE /\ runReturned = FALSE
         /\ stale = 0 /\ closing = 0 /\ connNil = FALSE /\ panic = FALSE /\ restarts = 0 /\ disarmed = FALSE
-        /\ hist = <<[drop |-> "none", attempts |-> <<>>, resume |-> "accept"]>>
+        /\ hist = <<[drop |-> "none", attempts |-> <<>>, resume |-> "accept", inpost |-> FALSE]>>
 
-Established(kind) == /\ sessions' = sessions + 1 /\ posts' = posts + 1 /\ live' = live + 1
+Established(kind) == /\ sessions' = sessions + 1 /\ posting' = posting + 1 /\ live' = live + 1 /\ UNCHANGED posts
                      /\ kinds' = Append(kinds, kind) /\ smid' = SM /\ phase' = "up"
 
 \* Run: the first Connect
@@ -75,20 +79,26 @@ FirstConnect == /\ phase = "init" /\ conns' = conns + 1
                 /\ UNCHANGED <<loops, round, attempts, pendingDisc, runReturned>> /\ UNCHANGED kavars
 
 \* the server terminates the established connection
+\* (also while the post-connect callback of that very session is still running: posting > 0)
 Drop(how) == /\ phase = "up" /\ round <= MaxRounds /\ loops = 0 /\ pendingDisc = 0
              /\ round' = round + 1 /\ attempts' = 0 /\ live' = live - 1
-             /\ hist' = Append(hist, [drop |-> how, attempts |-> <<>>, resume |-> "accept"])
+             /\ hist' = Append(hist, [drop |-> how, attempts |-> <<>>, resume |-> "accept", inpost |-> posting > 0])
              /\ IF how = "graceful" /\ GracefulCloseBlocks
                 THEN phase' = "up" /\ UNCHANGED pendingDisc       \* nothing notices: the receive loop is parked for ever
                 ELSE phase' = "lost" /\ pendingDisc' = pendingDisc + 1
              \* the receive loop noticed the end of the session: intended = its keepalive is told to quit before the event is reported
              /\ stale' = IF KeepaliveOutlivesSession /\ ~(how = "graceful" /\ GracefulCloseBlocks) THEN stale + 1 ELSE stale
-             /\ UNCHANGED <<loops, sessions, posts, conns, kinds, smid, runReturned, closing, connNil, panic, restarts, disarmed>>
+             /\ UNCHANGED <<loops, sessions, posts, posting, conns, kinds, smid, runReturned, closing, connNil, panic, restarts, disarmed>>
+
+\* the post-connect callback returns (and with it Connect, or the reconnect loop that established the session)
+PostDone == /\ posting > 0 /\ posting' = posting - 1 /\ posts' = posts + 1
+            /\ UNCHANGED <<phase, loops, sessions, conns, live, round, attempts, pendingDisc, kinds, smid, runReturned, hist>> /\ UNCHANGED kavars
 
 \* a Disconnected event reaches the StreamManager's handler: it starts a reconnect loop in the calling goroutine
 HandleDisc == /\ pendingDisc > 0 /\ phase \in {"lost", "up"}
-              /\ pendingDisc' = pendingDisc - 1 /\ loops' = IF disarmed THEN loops ELSE loops + 1
-              /\ UNCHANGED <<phase, sessions, posts, conns, live, round, attempts, kinds, smid, runReturned, hist>> /\ UNCHANGED kavars
+              /\ pendingDisc' = pendingDisc - 1
+              /\ loops' = IF disarmed \/ (GuardHeldDuringPost /\ posting > 0) THEN loops ELSE loops + 1
+              /\ UNCHANGED <<phase, sessions, posts, posting, conns, live, round, attempts, kinds, smid, runReturned, hist>> /\ UNCHANGED kavars
 
 \* one iteration of a reconnect loop fails; the loop backs off and tries again (or gives up on a permanent error)
 AttemptFails(o) == /\ loops > 0 /\ phase = "lost" /\ attempts < MaxAttempts
@@ -101,7 +111,7 @@ AttemptFails(o) == /\ loops > 0 /\ phase = "lost" /\ attempts < MaxAttempts
                    \* a failed negotiation leaves a teardown reader behind; in the code as found it reports a disconnection
                    /\ pendingDisc' = IF TeardownEmitsDisconnected /\ o \in {"reset", "transient"} THEN pendingDisc + 1 ELSE pendingDisc
                    /\ connNil' = (o = "refuse" /\ FailedDialClearsConn)
-                   /\ UNCHANGED <<sessions, posts, live, round, kinds, smid, runReturned, stale, closing, panic, restarts, disarmed>>
+                   /\ UNCHANGED <<sessions, posts, posting, live, round, kinds, smid, runReturned, stale, closing, panic, restarts, disarmed>>
 
 AttemptOK(res) == /\ loops > 0 /\ phase \in {"lost", "up"}
                   /\ conns' = conns + 1 /\ loops' = loops - 1
@@ -116,7 +126,7 @@ StalePing == /\ stale > closing /\ ~panic
              /\ IF connNil THEN panic' = TRUE /\ UNCHANGED closing                         \* nil dereference: the process is gone
                 ELSE IF phase = "lost" THEN closing' = closing + 1 /\ UNCHANGED panic        \* the dead connection: ping fails, Close() begins
                 ELSE UNCHANGED <<closing, panic>>                                           \* the new connection: one more whitespace
-             /\ UNCHANGED <<phase, loops, sessions, posts, conns, live, round, attempts, pendingDisc, kinds, smid, runReturned, stale, connNil, restarts, disarmed, hist>>
+             /\ UNCHANGED <<phase, loops, sessions, posts, posting, conns, live, round, attempts, pendingDisc, kinds, smid, runReturned, stale, connNil, restarts, disarmed, hist>>
 \* Close() has waited for the peer's stream end long enough: it closes the transport's CURRENT connection
 StaleClose == /\ closing > 0 /\ ~panic
               /\ closing' = closing - 1
@@ -124,29 +134,29 @@ StaleClose == /\ closing > 0 /\ ~panic
                  THEN /\ phase' = "lost" /\ live' = live - 1 /\ pendingDisc' = pendingDisc + 1  \* the re-established session is ended - by the client itself
                       /\ stale' = stale                                                       \* (and its keepalive is stale in turn)
                  ELSE stale' = stale - 1 /\ UNCHANGED <<phase, live, pendingDisc>>
-              /\ UNCHANGED <<loops, sessions, posts, conns, round, attempts, kinds, smid, runReturned, connNil, panic, restarts, disarmed, hist>>
+              /\ UNCHANGED <<loops, sessions, posts, posting, conns, round, attempts, kinds, smid, runReturned, connNil, panic, restarts, disarmed, hist>>
 \* the receive loop that hosted the reconnection returns: only now is its keepalive told to quit
 OldRecvReturns == /\ stale > closing /\ loops = 0 /\ pendingDisc = 0 /\ phase \in {"up", "failed"} /\ ~panic
                   /\ stale' = closing
-                  /\ UNCHANGED <<phase, loops, sessions, posts, conns, live, round, attempts, pendingDisc, kinds, smid, runReturned, closing, connNil, panic, restarts, disarmed, hist>>
+                  /\ UNCHANGED <<phase, loops, sessions, posts, posting, conns, live, round, attempts, pendingDisc, kinds, smid, runReturned, closing, connNil, panic, restarts, disarmed, hist>>
 
 \* the application stops the manager while the session is up and runs it again (same manager, same client): Run
 \* returns, the old session ends, the first connection of the new Run brings up a new one
-Restart(res) == /\ phase = "up" /\ loops = 0 /\ pendingDisc = 0 /\ stale = 0 /\ restarts < MaxRestarts /\ round <= MaxRounds
+Restart(res) == /\ phase = "up" /\ loops = 0 /\ posting = 0 /\ pendingDisc = 0 /\ stale = 0 /\ restarts < MaxRestarts /\ round <= MaxRounds
                 /\ restarts' = restarts + 1 /\ disarmed' = StopDisarms
                 /\ round' = round + 1 /\ attempts' = 0 /\ conns' = conns + 1
-                /\ sessions' = sessions + 1 /\ posts' = posts + 1
+                /\ sessions' = sessions + 1 /\ posting' = posting + 1 /\ UNCHANGED posts
                 /\ kinds' = Append(kinds, IF smid /\ res = "accept" THEN "resume" ELSE "bind") /\ smid' = SM
-                /\ hist' = Append(hist, [drop |-> "restart", attempts |-> <<"ok">>, resume |-> res])
+                /\ hist' = Append(hist, [drop |-> "restart", attempts |-> <<"ok">>, resume |-> res, inpost |-> FALSE])
                 /\ UNCHANGED <<phase, loops, live, pendingDisc, runReturned, stale, closing, connNil, panic>>
 
-Stop == /\ loops = 0
+Stop == /\ loops = 0 /\ posting = 0
         /\ \/ (phase = "up" /\ pendingDisc = 0 /\ round > MaxRounds)
            \/ phase = "failed"
         /\ phase' = "stopped" /\ runReturned' = TRUE /\ live' = 0
-        /\ UNCHANGED <<loops, sessions, posts, conns, round, attempts, pendingDisc, kinds, smid, hist>> /\ UNCHANGED kavars
+        /\ UNCHANGED <<loops, sessions, posts, posting, conns, round, attempts, pendingDisc, kinds, smid, hist>> /\ UNCHANGED kavars
 
-Next == FirstConnect \/ (\E h \in Drops : Drop(h)) \/ HandleDisc \/ (\E o \in Outcomes : AttemptFails(o))
+Next == PostDone \/ FirstConnect \/ (\E h \in Drops : Drop(h)) \/ HandleDisc \/ (\E o \in Outcomes : AttemptFails(o))
         \/ (\E r \in {"accept", "refuse"} : AttemptOK(r)) \/ Stop \/ StalePing \/ StaleClose \/ OldRecvReturns
         \/ (\E r \in {"accept", "refuse"} : Restart(r))
 Spec == Init /\ [][Next]_vars /\ WF_vars(Next)
@@ -154,7 +164,9 @@ Spec == Init /\ [][Next]_vars /\ WF_vars(Next)
 \* ---------------------------------------------------------------- properties (C13)
 C13_AtMostOneLoop == loops <= 1
 C13_OneSessionPerLoss == sessions <= round /\ ((phase = "up" /\ loops = 0 /\ pendingDisc = 0) => sessions = round)
-C13_PostConnectOncePerSession == posts = sessions
+\* a reported loss is never swallowed: once its event has been handled a reconnect loop is running (or a permanent error ended it)
+C13_LossStartsALoop == (phase = "lost" /\ pendingDisc = 0) => loops > 0
+C13_PostConnectOncePerSession == posts + posting = sessions
 C13_AtMostOneLiveSession == live <= 1
 C13_PermanentEndsLoop == phase = "failed" => loops = 0
 \* ... and only a permanent error does: a refused or reset connection or a torn-down negotiation is retried
